@@ -6,34 +6,23 @@
   merge sequence it produces the same merged config, it evaluates to the same value, and it carries
   the same user metadata. Dumping the re-parsed document produces the same text again."
 
-  Model: AY.Model.Dump (`represent` = `_node_representer` with the `dumper.metadata` stack, flag
-  elision against the stack and the type defaults, the single-tag shortcut, node-kind tags) composed
-  with AY.Model.Construct (`construct` = the loader). The model starts and ends at the representation
-  tree (`Raw`); YAML text emission and scanning is PyYAML and is exercised by harness/props/c18.py.
+  Model: AY.Model.Dump (`represent` = `_node_representer` with the `dumper.metadata` stack, the
+  elision of redundant flags, node-kind tags) composed with AY.Model.Construct (`construct` = the
+  loader). The model starts and ends at the representation tree (`Raw`); YAML text emission and
+  scanning is PyYAML and is exercised by harness/props/c18.py.
 
-  PARTIAL. What is proved:
-    * C18_roundtrip_partial / C18_dump_fixpoint_partial: for every TAG-FREE document (mappings,
-      lists, scalars of every type, null; any nesting, repeated keys, any source flags) dump ∘ parse
-      is the identity on the node tree — every attribute, raw and effective, of every node is
-      preserved, so the re-parsed document is interchangeable with the original in every merge
-      sequence and evaluation (it is the same value of type `Node`), and the second dump equals the first.
-    * the property is FALSE of the faithful model (and of the code) on the tagged vocabulary; each
-      mechanism is proved on a concrete witness (replayed on the implementation by the harness):
-      C18_explicit_default_delete_counterexample (D17a), C18_default_under_parent_counterexample
-      (D17g), C18_append_with_metadata_not_reparseable and C18_fstr_with_metadata_not_reparseable
-      (D17i); the shortcut-tag mechanism D17k is in AY/Props/C18_Effective.lean.
-    * after the repairs of D17c, D17d, D17h, D17j the corresponding node kinds round-trip exactly:
-      C18_clear_roundtrip, C18_fstr_roundtrip, C18_safe_tag_roundtrip, C18_path_noref_reparse
-      (+ C18_path_source_carried) — the former negations are gone.
-  Not proved: the round trip "up to elided-but-ineffective attributes" for the merge-control
-  vocabulary under the hypotheses that exclude D17a/D17g (no explicit flag equal to its type default);
-  it is covered by the correspondence check (model = code on 3 000+ generated documents per run of the
-  thorough tier) and by the implementation-only oracle.
-  Attributes preserved exactly by dump ∘ parse in general (by construction of `represent`): node
-  kinds, keys and order, scalar content, user metadata; preserved only EFFECTIVELY: priority,
-  delete, allow_new, safe (an explicit value equal to the value inherited from an enclosing dumped
-  node is dropped and re-inherited); NOT preserved: explicit values equal to the type default
-  (D17a, D17g), the source file of `!path`, `idx`.
+  This file: the EXACT round trips (the re-parsed tree is the original tree, every raw and effective
+  attribute of every node):
+    * C18_roundtrip_partial / C18_dump_fixpoint_partial — every TAG-FREE document (mappings, lists,
+      scalars of every type, null; any nesting, repeated keys, any source flags);
+    * the node kinds whose dump was repaired (D17c, D17h, D17j, D17d, D17i): C18_clear_roundtrip,
+      C18_fstr_roundtrip, C18_safe_tag_roundtrip, C18_path_noref_reparse (+ C18_path_source_carried),
+      C18_kind_with_metadata_roundtrip (`!append`, `!import`, `!fstr` below a `!force` ancestor);
+    * the witnesses of the former findings D17a, D17g now round-trip: C18_explicit_default_delete_kept,
+      C18_default_under_parent_kept.
+  AY/Props/C18_Effective.lean: the round trip for EVERY document over the merge-control vocabulary, up
+  to explicit flags that repeat what the node gets anyway.
+  PARTIAL with respect to the property text: see the end of AY/Props/C18_Effective.lean.
   Only property theorems live here; lemmas are in AY.Lemmas.C18Lemmas.
 -/
 import AY.Lemmas.C18Lemmas
@@ -65,13 +54,8 @@ def okOr (x : Except Err Node) : Node :=
   | .ok n => n
   | .error _ => .leaf {} .required
 
-def dumpOr (x : Except DumpErr Raw) : Raw :=
-  match x with
-  | .ok r => r
-  | .error _ => .scalar .none {} .empty
-
 /-- parse, dump, parse again -/
-def reparsed (r : Raw) : Node := okOr (construct {} (dumpOr (represent (okOr (construct {} r)))))
+def reparsed (r : Raw) : Node := okOr (construct {} (represent (okOr (construct {} r))))
 
 /-! ### the tag-free vocabulary: dump ∘ parse is the identity -/
 
@@ -80,115 +64,93 @@ def reparsed (r : Raw) : Node := okOr (construct {} (dumpOr (represent (okOr (co
    original tree (equal as a value, all raw and effective attributes of all nodes), hence it merges,
    evaluates and carries metadata identically wherever it is substituted. -/
 theorem C18_roundtrip_partial (env : Env) (r : Raw) (n : Node) (hu : Untagged r = true)
-    (h : construct env r = .ok n) :
-    ∃ r', represent n = .ok r' ∧ construct env r' = .ok n :=
-  (td_rt env none r n hu h).1
+    (h : construct env r = .ok n) : construct env (represent n) = .ok n :=
+  (td_rt env none r n hu h).1 {}
 
 example : Untagged c18ExPlain = true := by decide
-example : ∃ r', represent (okOr (construct {} c18ExPlain)) = .ok r' ∧ construct {} r' = .ok (okOr (construct {} c18ExPlain)) :=
+example : construct {} (represent (okOr (construct {} c18ExPlain))) = .ok (okOr (construct {} c18ExPlain)) :=
   C18_roundtrip_partial {} c18ExPlain _ (by decide) rfl
 
 /- "Dumping the re-parsed document produces the same text again." -/
 theorem C18_dump_fixpoint_partial (env : Env) (r : Raw) (n : Node) (hu : Untagged r = true)
     (h : construct env r = .ok n) :
-    ∃ r', represent n = .ok r' ∧ ∀ n', construct env r' = .ok n' → represent n' = .ok r' := by
-  obtain ⟨r', h1, h2⟩ := C18_roundtrip_partial env r n hu h
-  refine ⟨r', h1, fun n' h' => ?_⟩
-  rw [h2] at h'
+    ∀ n', construct env (represent n) = .ok n' → represent n' = represent n := by
+  intro n' h'
+  rw [C18_roundtrip_partial env r n hu h] at h'
   cases h'
-  exact h1
+  rfl
 
-/-! ### the tagged vocabulary: where the property fails (each replayed on the implementation) -/
+example : represent (reparsed c18ExPlain) = represent (okOr (construct {} c18ExPlain)) :=
+  C18_dump_fixpoint_partial {} c18ExPlain _ (by decide) rfl _ rfl
 
-/- D17a. An explicit `!del` equal to the type default (`a: !del []`) is elided; the re-parsed node has
-   no explicit delete, and the remove-this-key idiom is lost: merged onto `a: [1]` the original
-   removes the key `a`, the re-parsed document leaves `a: []`. -/
-theorem C18_explicit_default_delete_counterexample :
-    (getNode (okOr (construct {} c18ExDel)) [.str "a"]).map (fun n => n.flags.del) = some (some true) ∧
-    (getNode (reparsed c18ExDel) [.str "a"]).map (fun n => n.flags.del) = some none ∧
-    (flatten [okOr (construct {} c18ExBase), okOr (construct {} c18ExDel)]).toOption.map
-        (fun m => hasChild (.str "a") m.children) = some false ∧
-    (flatten [okOr (construct {} c18ExBase), reparsed c18ExDel]).toOption.map
-        (fun m => hasChild (.str "a") m.children) = some true := by
-  refine ⟨by decide, by decide, by decide, by decide⟩
+/-! ### node kinds whose dump was repaired: exact round trips -/
 
-/- D17g. A flag equal to the type default is elided even when the enclosing node imposes the opposite:
-   in `x: !del {a: !merge {p: 1}}` the node `a` merges; in the re-parsed dump (`x: !del {a: {p: 1}}`) it deletes. -/
-theorem C18_default_under_parent_counterexample :
-    (getNode (okOr (construct {} c18ExUnder)) [.str "x", .str "a"]).map eDel = some false ∧
-    (getNode (reparsed c18ExUnder) [.str "x", .str "a"]).map eDel = some true := by
-  refine ⟨by decide, by decide⟩
-
-/-! ### repaired node kinds: exact round trips (D17c, D17h, D17j, D17d) -/
-
-/- D17c (repaired). `!clear` with any keywords that the dumper keeps (none repeats a default:
-   `noDefaultKw`) is dumped as `!clear[:metadata]` with exactly these keywords, so parsing the dump
-   rebuilds the same node: kind, explicit priority / delete / allow_new / safe, user metadata,
-   source-level flag and file are all equal. -/
-theorem C18_clear_roundtrip (env : Env) (kw : CtorKw) (n : Node) (hk : noDefaultKw env kw = true)
+/- D17c (repaired). `!clear` with any keywords that the dumper keeps at the top of a document (none
+   repeats a default: `noDefaultKw`; `safe` is always kept) is dumped as `!clear[:metadata]` with
+   exactly these keywords, so parsing the dump rebuilds the same node: kind, explicit priority /
+   delete / allow_new / safe, user metadata, source-level flag and file are all equal. -/
+theorem C18_clear_roundtrip (env : Env) (kw : CtorKw) (n : Node) (hk : noDefaultKw kw = true)
     (h : construct env (.scalar .clear kw .empty) = .ok n) :
-    represent n = .ok (.scalar .clear kw .empty) ∧
-      ∃ r', represent n = .ok r' ∧ construct env r' = .ok n := by
+    represent n = .scalar .clear kw .empty ∧ construct env (represent n) = .ok n := by
   have hn : n = .leaf (mkFlags env kw) .clear := by
     simp only [construct, constructTD, wrapScalar, adoptBy] at h; cases h; rfl
-  have hr : represent n = .ok (.scalar .clear kw .empty) := by
+  have hr : represent n = .scalar .clear kw .empty := by
     subst hn
     simp only [represent, representWith, representLeaf, nodeInfo_leaf_top env kw _ hk]
-  exact ⟨hr, _, hr, h⟩
+  exact ⟨hr, by rw [hr]; exact h⟩
 
-example : noDefaultKw {} { prio := some 1, md := [("m", .int 1)] } = true := by decide
-example : ∃ n, construct {} (.scalar .clear { prio := some 1, md := [("m", .int 1)] } .empty) = .ok n ∧
-    represent n = .ok (.scalar .clear { prio := some 1, md := [("m", .int 1)] } .empty) :=
-  ⟨_, rfl, (C18_clear_roundtrip {} _ _ (by decide) rfl).1⟩
+example : noDefaultKw { prio := some 1, safe := some true, md := [("m", .int 1)] } = true := by decide
+example : represent (okOr (construct {} (.scalar .clear { prio := some 1, md := [("m", .int 1)] } .empty))) =
+    .scalar .clear { prio := some 1, md := [("m", .int 1)] } .empty :=
+  (C18_clear_roundtrip {} _ _ (by decide) rfl).1
 
-/- D17h (repaired). An f-string node is dumped with its own tag `!fstr` and parsed back as the same
-   node (kind, code, all flags). -/
-theorem C18_fstr_roundtrip (env : Env) (c : String) (n : Node)
-    (h : construct env (.scalar .fstr {} (.text c)) = .ok n) :
-    represent n = .ok (.scalar .fstr {} (.text c)) ∧
-      ∃ r', represent n = .ok r' ∧ construct env r' = .ok n := by
-  have hn : n = .leaf (mkFlags env {}) (.fstr c) := by
+/- D17h (repaired). An f-string node is dumped with its own tag `!fstr` (with its keywords: `!fstr:<hex>`
+   has a constructor since the repair of D17i) and parsed back as the same node. -/
+theorem C18_fstr_roundtrip (env : Env) (kw : CtorKw) (c : String) (n : Node) (hk : noDefaultKw kw = true)
+    (h : construct env (.scalar .fstr kw (.text c)) = .ok n) :
+    represent n = .scalar .fstr kw (.text c) ∧ construct env (represent n) = .ok n := by
+  have hn : n = .leaf (mkFlags env kw) (.fstr c) := by
     simp only [construct, constructTD, wrapScalar, adoptBy] at h; cases h; rfl
-  have hi : nodeInfo {} (.leaf (mkFlags env {}) (.fstr c)) = {} :=
-    nodeInfo_free _ _ ⟨rfl, rfl, rfl, rfl, rfl⟩
-  have hr : represent n = .ok (.scalar .fstr {} (.text c)) := by
+  have hr : represent n = .scalar .fstr kw (.text c) := by
     subst hn
-    simp [represent, representWith, representLeaf, hi, CtorKw.isEmpty, CtorKw.flagCount]
-  exact ⟨hr, _, hr, h⟩
+    simp only [represent, representWith, representLeaf, nodeInfo_leaf_top env kw _ hk]
+  exact ⟨hr, by rw [hr]; exact h⟩
 
-example : represent (okOr (construct {} (.scalar .fstr {} (.text "f'{b}'")))) = .ok (.scalar .fstr {} (.text "f'{b}'")) :=
-  (C18_fstr_roundtrip {} _ _ rfl).1
+example : represent (okOr (construct {} (.scalar .fstr {} (.text "f'{b}'")))) = .scalar .fstr {} (.text "f'{b}'") :=
+  (C18_fstr_roundtrip {} {} _ _ (by decide) rfl).1
 
-/- D17j (repaired). In a source loaded with `safe=False` an explicit `safe=True` on a scalar is written
-   as the simple tag `!safe`, which the loader reads back as the keyword `safe=True`: same node. -/
-theorem C18_safe_tag_roundtrip (env : Env) (v : Scalar) (n : Node) (hv : v ≠ .null) (hs : env.dSafe = false)
-    (h : construct env (.scalar .plain { safe := some true } (.lit v)) = .ok n) :
-    represent n = .ok (.scalar .plain { safe := some true } (.lit v)) ∧
-      ∃ r', represent n = .ok r' ∧ construct env r' = .ok n := by
-  have hk : noDefaultKw env { safe := some true } = true := by simp [noDefaultKw, hs]
-  have hn : n = .leaf (mkFlags env { safe := some true }) (.scalar v) := by
+/- D17j / D17f (repaired). An explicit `safe` on a scalar — True or False, whatever flag the source was
+   loaded with — is written (as `!safe` / `!unsafe`) and read back as the same keyword: same node. -/
+theorem C18_safe_tag_roundtrip (env : Env) (b : Bool) (v : Scalar) (n : Node) (hv : v ≠ .null)
+    (h : construct env (.scalar .plain { safe := some b } (.lit v)) = .ok n) :
+    represent n = .scalar .plain { safe := some b } (.lit v) ∧ construct env (represent n) = .ok n := by
+  have hk : noDefaultKw { safe := some b } = true := by simp [noDefaultKw]
+  have hn : n = .leaf (mkFlags env { safe := some b }) (.scalar v) := by
     cases v <;> first
       | exact absurd rfl hv
       | (simp only [construct, constructTD, wrapScalar, adoptBy, RVal.toScalar] at h; cases h; rfl)
-  have hr : represent n = .ok (.scalar .plain { safe := some true } (.lit v)) := by
+  have hr : represent n = .scalar .plain { safe := some b } (.lit v) := by
     subst hn
     cases v <;> first
       | exact absurd rfl hv
       | simp [represent, representWith, representLeaf, nodeInfo_leaf_top env _ _ hk, plainTag, CtorKw.isEmpty,
           CtorKw.flagCount]
-  exact ⟨hr, _, hr, h⟩
+  exact ⟨hr, by rw [hr]; exact h⟩
 
-example : ∃ n, construct { dSafe := false } (.scalar .plain { safe := some true } (.lit (.int 5))) = .ok n ∧
-    represent n = .ok (.scalar .plain { safe := some true } (.lit (.int 5))) :=
-  ⟨_, rfl, (C18_safe_tag_roundtrip { dSafe := false } _ _ (by decide) rfl rfl).1⟩
+example : represent (okOr (construct { dSafe := false } (.scalar .plain { safe := some true } (.lit (.int 5))))) =
+    .scalar .plain { safe := some true } (.lit (.int 5)) :=
+  (C18_safe_tag_roundtrip { dSafe := false } true _ _ (by decide) rfl).1
+example : represent (okOr (construct { dSafe := false } (.scalar .plain { safe := some false } (.lit (.int 5))))) =
+    .scalar .plain { safe := some false } (.lit (.int 5)) :=
+  (C18_safe_tag_roundtrip { dSafe := false } false _ _ (by decide) rfl).1
 
 /- D17d (repaired). A `!path` without reference point is written as the mapping
-   `{values, ref_point: '', source_file}`; the `!path` constructor now takes it as keyword arguments,
+   `{values, ref_point: '', source_file}`; the `!path` constructor takes it as keyword arguments,
    i.e. the re-parse sees the short `!path` over the dumped components. Metadata on such a node
    (only reachable by inheritance, e.g. a priority from a `!force` ancestor: the tag becomes
    `!path:<hex>`) is dropped by the constructor and re-inherited from the ancestor. -/
 theorem C18_path_noref_reparse (kw : CtorKw) (items : List Raw) :
-    representComp (.path "") kw items [] = .ok (.seq (.path "") {} items) := by
+    representComp (.path "") kw items [] = .seq (.path "") {} items := by
   simp [representComp]
 
 /-- `a: !path [x, y]` -/
@@ -199,11 +161,11 @@ def c18ExPathForce : Raw :=
   .map .plain { prio := some 1 } [(.str "a", .seq (.path "") {} [.scalar .none {} (.lit (.str "x"))])]
 
 -- the whole documents round-trip exactly (every attribute of every node), also below `!force`
-example : construct {} (dumpOr (represent (okOr (construct {} c18ExPath)))) = construct {} c18ExPath := rfl
-example : construct { src := some "/cfg/m.yaml" } (dumpOr (represent (okOr (construct { src := some "/cfg/m.yaml" } c18ExPath))))
+example : construct {} (represent (okOr (construct {} c18ExPath))) = construct {} c18ExPath := rfl
+example : construct { src := some "/cfg/m.yaml" } (represent (okOr (construct { src := some "/cfg/m.yaml" } c18ExPath)))
     = construct { src := some "/cfg/m.yaml" } c18ExPath := rfl
-example : construct {} (dumpOr (represent (okOr (construct {} c18ExPathForce)))) = construct {} c18ExPathForce := rfl
-example : represent (okOr (construct {} c18ExPath)) = .ok c18ExPath := rfl
+example : construct {} (represent (okOr (construct {} c18ExPathForce))) = construct {} c18ExPathForce := rfl
+example : represent (okOr (construct {} c18ExPath)) = c18ExPath := rfl
 
 /- The dumped mapping of every `!path` node carries the file the node was written in; parsed from
    another file (`env`) the node keeps the original one (the file-relative reference points `file`,
@@ -213,17 +175,40 @@ theorem C18_path_source_carried (env : Env) (f : Flags) (s : String) (h : f.src 
     pathSourceOnReparse env f = some s := by
   simp [pathSourceOnReparse, h]
 
-/- D17i. `!append` with metadata (e.g. a priority inherited from a `!force` ancestor) is written with a
-   tag that has no constructor. -/
-theorem C18_append_with_metadata_not_reparseable :
-    represent (okOr (construct {} (.map .plain { prio := some 1 } [(.str "a", .seq .append {} [.scalar .none {} (.lit (.int 1))])])))
-      = .error .noMetadataForm := rfl
+/-- `!force {a: !append [1], b: !import rec, c: !fstr "f'{x}'", d: !clear, e: !xref p}` -/
+def c18ExKinds : Raw :=
+  .map .plain { prio := some 1 } [
+    (.str "a", .seq .append {} [.scalar .none {} (.lit (.int 1))]),
+    (.str "b", .scalar .imp {} (.text "rec")),
+    (.str "c", .scalar .fstr {} (.text "f'{x}'")),
+    (.str "d", .scalar .clear {} .empty),
+    (.str "e", .scalar .xref {} (.text "p"))]
 
-/- D17i, new facet after the repair of D17h: `!fstr` has no `:metadata` form either, so an f-string
-   below a `!force` ancestor is written as `!fstr:<hex>`, which has no constructor (before the repair
-   it was written as `!eval:<hex>`, which parsed — as an EvalNode). -/
-theorem C18_fstr_with_metadata_not_reparseable :
-    represent (okOr (construct {} (.map .plain { prio := some 1 } [(.str "a", .scalar .fstr {} (.text "f'{b}'"))])))
-      = .error .noMetadataForm := rfl
+/- D17i (repaired). Node kinds that had no `:metadata` tag form (`!append`, `!import`, `!fstr`, …) now
+   round-trip also when they carry metadata, e.g. the priority inherited from a `!force` ancestor:
+   the whole document re-parses to the same tree, and the second dump equals the first. -/
+theorem C18_kind_with_metadata_roundtrip :
+    construct {} (represent (okOr (construct {} c18ExKinds))) = construct {} c18ExKinds ∧
+    represent (reparsed c18ExKinds) = represent (okOr (construct {} c18ExKinds)) :=
+  ⟨rfl, rfl⟩
+
+example : (getNode (okOr (construct {} c18ExKinds)) [.str "a"]).map (fun n => n.flags.prio) = some (some 1) := by decide
+
+/-! ### the witnesses of the former findings D17a and D17g round-trip -/
+
+/- D17a (repaired). An explicit `!del` is always written: `a: !del []` keeps its explicit delete, and the
+   remove-this-key idiom survives the round trip (merged onto `a: [1]` both remove the key). -/
+theorem C18_explicit_default_delete_kept :
+    construct {} (represent (okOr (construct {} c18ExDel))) = construct {} c18ExDel ∧
+    (flatten [okOr (construct {} c18ExBase), reparsed c18ExDel]).toOption.map
+        (fun m => hasChild (.str "a") m.children) = some false := by
+  refine ⟨rfl, by decide⟩
+
+/- D17g (repaired). A flag equal to the type default is written when the enclosing node states the
+   opposite: `x: !del {a: !merge {p: 1}}` re-parses to the same tree (`a` still merges). -/
+theorem C18_default_under_parent_kept :
+    construct {} (represent (okOr (construct {} c18ExUnder))) = construct {} c18ExUnder ∧
+    (getNode (reparsed c18ExUnder) [.str "x", .str "a"]).map eDel = some false := by
+  refine ⟨rfl, by decide⟩
 
 end AY
